@@ -100,29 +100,47 @@ Section Sound.
 
   Lemma child_facts d p : In d sch -> sd_parent d = Some p ->
     is_rootb sch p = true /\
-    (forall k, In k (sd_cons d) -> match k with CUnique f _ => declares_field d f = true | CSystem => True | _ => False end) /\
-    sd_links d = [].
+    (forall k, In k (sd_cons d) -> wf_cons sch d k = true) /\
+    (forall l, In l (sd_links d) -> wf_link sch d l = true).
   Proof.
     intros Hin Hp. pose proof (Hchild d Hin) as H. unfold wf_child in H. rewrite Hp in H.
     apply andb_prop in H as [H H3]. apply andb_prop in H as [H1 H2]. split; [exact H1|]. split.
-    - intros k Hk. rewrite forallb_forall in H2. specialize (H2 k Hk). destruct k; try discriminate; auto.
-    - destruct (sd_links d); [reflexivity | discriminate].
+    - rewrite forallb_forall in H2. exact H2.
+    - rewrite forallb_forall in H3. exact H3.
   Qed.
 
   Lemma root_facts d : In d sch -> sd_parent d = None ->
     NoDup (flat_map (fun c => unique_fields (sd_cons c)) (family sch (sd_name d))) /\
-    NoDup (setidx_fields (sd_cons d)) /\
-    NoDup (sd_sets d ++ backrefs_on sch (sd_name d) ++ link_locals d) /\
+    NoDup (flat_map (fun c => setidx_fields (sd_cons c)) (family sch (sd_name d))) /\
+    NoDup (sd_sets d ++ backrefs_on sch (sd_name d) ++ flat_map link_locals (family sch (sd_name d))) /\
     (forall k, In k (sd_cons d) -> wf_cons sch d k = true) /\
-    (forall lf os of_, In (lf, os, of_) (sd_links d) -> is_rootb sch os = true /\ In (of_, sd_name d, lf) (links_of sch os)).
+    (forall l, In l (sd_links d) -> wf_link sch d l = true).
   Proof.
     intros Hin Hp. pose proof (Hroot d Hin) as H. unfold wf_root in H. rewrite Hp in H.
     apply andb_prop in H as [H H5]. apply andb_prop in H as [H H4]. apply andb_prop in H as [H H3]. apply andb_prop in H as [H1 H2].
     split; [apply nt_nodupb_NoDup; exact H1|]. split; [apply nt_nodupb_NoDup; exact H2|]. split; [apply nt_nodupb_NoDup; exact H3|].
     split; [rewrite forallb_forall in H4; exact H4|].
-    intros lf os of_ Hl. rewrite forallb_forall in H5. specialize (H5 _ Hl). cbn in H5. apply andb_prop in H5 as [A B].
-    split; [exact A|]. apply existsb_exists in B as [[[a b] c] [Hin' Heq]]. unfold name3_eqb in Heq.
+    rewrite forallb_forall in H5. exact H5.
+  Qed.
+
+  Lemma wf_link_sym d lf os of_ : wf_link sch d (lf, os, of_) = true -> In (of_, sd_name d, lf) (links_of sch os).
+  Proof.
+    unfold wf_link. intros B. apply existsb_exists in B as [[[a b] c] [Hin' Heq]]. unfold name3_eqb in Heq.
     apply andb_prop in Heq as [Heq E3]. apply andb_prop in Heq as [E1 E2]. apply str_eqb_eq in E1, E2, E3. subst. exact Hin'.
+  Qed.
+
+  Lemma decl_links_wf d : In d sch -> forall l, In l (sd_links d) -> wf_link sch d l = true.
+  Proof.
+    intros Hd l Hl. destruct (sd_parent d) as [p|] eqn:Ep.
+    - destruct (child_facts d p Hd Ep) as [_ [_ H]]. exact (H l Hl).
+    - destruct (root_facts d Hd Ep) as [_ [_ [_ [_ H]]]]. exact (H l Hl).
+  Qed.
+
+  Lemma decl_cons_wf d : In d sch -> forall k, In k (sd_cons d) -> wf_cons sch d k = true.
+  Proof.
+    intros Hd k Hk. destruct (sd_parent d) as [p|] eqn:Ep.
+    - destruct (child_facts d p Hd Ep) as [_ [H _]]. exact (H k Hk).
+    - destruct (root_facts d Hd Ep) as [_ [_ [_ [H _]]]]. exact (H k Hk).
   Qed.
 
   Lemma root_of_decl s d : find_store sch s = Some d -> root_of sch s = match sd_parent d with Some p => p | None => s end.
@@ -151,20 +169,10 @@ Section Sound.
       split; [apply not_child_root; exact Hc | exact Hc].
   Qed.
 
-  (* a store that carries a constraint other than unique/system, or a link, is a declared root store *)
-  Lemma root_decl_of_cons s k : In k (cons_of sch s) ->
-    match k with CUnique _ _ => False | CSystem => False | _ => True end ->
-    exists d, find_store sch s = Some d /\ In d sch /\ sd_name d = s /\ sd_parent d = None /\ In k (sd_cons d).
-  Proof.
-    intros Hin Hk. destruct (cons_of_in s k Hin) as [d [A [B [C D]]]]. exists d. repeat split; try assumption.
-    destruct (sd_parent d) as [p|] eqn:Ep; [|reflexivity]. exfalso.
-    destruct (child_facts d p B Ep) as [_ [H _]]. specialize (H k D). destruct k; auto.
-  Qed.
-
   Lemma isroot_decl s d : find_store sch s = Some d -> sd_parent d = None -> isroot sch s.
   Proof. intros A B. unfold isroot, is_child, root_of. rewrite A, B. split; reflexivity. Qed.
 
-  Lemma in_backrefs_on d f t b nl : In d sch -> In (CFkIndex f t b nl) (sd_cons d) -> In b (backrefs_on sch t).
+  Lemma in_backrefs_on d f t b nl : In d sch -> In (CFkIndex f t b nl) (sd_cons d) -> In b (backrefs_on sch (root_of sch t)).
   Proof.
     intros Hd Hk. unfold backrefs_on. apply in_flat_map. exists d. split; [exact Hd|].
     apply in_flat_map. exists (CFkIndex f t b nl). split; [exact Hk|]. rewrite str_eqb_refl. left. reflexivity.
@@ -173,15 +181,66 @@ Section Sound.
   Lemma in_link_locals d lf os of_ : In (lf, os, of_) (sd_links d) -> In lf (link_locals d).
   Proof. intros H. unfold link_locals. apply in_map_iff. exists (lf, os, of_). split; [reflexivity | exact H]. Qed.
 
-  Lemma in_setidx_sets d f : In d sch -> sd_parent d = None -> In (CSetIdx f) (sd_cons d) -> In f (sd_sets d).
-  Proof.
-    intros Hd Hp Hk. destruct (root_facts d Hd Hp) as [_ [_ [_ [H _]]]]. specialize (H _ Hk). cbn in H. apply ss_mem_in. exact H.
-  Qed.
-
   Lemma family_in r d : In d sch -> (sd_name d = r \/ sd_parent d = Some r) -> In d (family sch r).
   Proof.
     intros Hd H. unfold family. apply filter_In. split; [exact Hd|]. destruct H as [<- | ->]; [rewrite str_eqb_refl; reflexivity|].
     rewrite str_eqb_refl. apply orb_true_r.
+  Qed.
+
+  Lemma NoDup_flat_map_in {A B} (g : A -> list B) l a : NoDup (flat_map g l) -> In a l -> NoDup (g a).
+  Proof.
+    induction l as [|c l IH]; cbn; intros Hn Ha; [contradiction|]. destruct Ha as [->|Ha].
+    - exact (NoDup_app_remove_r _ _ Hn).
+    - apply IH; [exact (NoDup_app_remove_l _ _ Hn) | exact Ha].
+  Qed.
+
+  (* the declared root store of the family of a declared store, and the membership of the store in that family *)
+  Lemma family_root s d : find_store sch s = Some d ->
+    exists dr, In dr sch /\ sd_name dr = root_of sch s /\ sd_parent dr = None /\ find_store sch (root_of sch s) = Some dr /\
+               In d (family sch (root_of sch s)).
+  Proof.
+    intros A. destruct (find_store_in _ _ _ A) as [B C]. rewrite (root_of_decl _ _ A).
+    destruct (sd_parent d) as [p|] eqn:Ep.
+    - destruct (child_facts d p B Ep) as [Hrp _]. destruct (is_rootb_decl p Hrp) as [dp [X0 [X [Y Z]]]]. exists dp.
+      repeat split; try assumption. apply family_in; [exact B | right; exact Ep].
+    - exists d. repeat split; try assumption. apply family_in; [exact B | left; exact C].
+  Qed.
+
+  (* a set index declared on store s (root or child): the declared root store of its family declares the string list *)
+  Lemma setidx_root s f : In (CSetIdx f) (cons_of sch s) ->
+    exists d dr, find_store sch s = Some d /\ In d sch /\ sd_name d = s /\ In (CSetIdx f) (sd_cons d) /\
+                 In dr sch /\ sd_name dr = root_of sch s /\ sd_parent dr = None /\ In d (family sch (root_of sch s)) /\ In f (sd_sets dr).
+  Proof.
+    intros Hin. destruct (cons_of_in s _ Hin) as [d [A [B [C D]]]]. destruct (family_root s d A) as [dr [E1 [E2 [E3 [E4 E5]]]]].
+    exists d, dr. refine (conj A (conj B (conj C (conj D (conj E1 (conj E2 (conj E3 (conj E5 _)))))))).
+    pose proof (decl_cons_wf d B _ D) as H. cbn in H. rewrite (root_of_decl _ _ A) in E4.
+    destruct (sd_parent d) as [p|] eqn:Ep.
+    - rewrite E4 in H. apply ss_mem_in. exact H.
+    - rewrite A in E4. inversion E4; subst dr. apply ss_mem_in. exact H.
+  Qed.
+
+  (* a link collection declared on store s: its local field is one of the link fields of the family of s *)
+  Lemma link_in_family s lf os of_ : In (lf, os, of_) (links_of sch s) ->
+    exists d dr, find_store sch s = Some d /\ In d sch /\ sd_name d = s /\ In (lf, os, of_) (sd_links d) /\
+                 In dr sch /\ sd_name dr = root_of sch s /\ sd_parent dr = None /\ find_store sch (root_of sch s) = Some dr /\
+                 In d (family sch (root_of sch s)) /\ In lf (flat_map link_locals (family sch (root_of sch s))).
+  Proof.
+    intros Hin. destruct (links_of_in s _ Hin) as [d [A [B [C D]]]]. destruct (family_root s d A) as [dr [E1 [E2 [E3 [E4 E5]]]]].
+    exists d, dr. repeat split; try assumption. apply in_flat_map. exists d. split; [exact E5 | eapply in_link_locals; exact D].
+  Qed.
+
+  (* a foreign-key index declared on store s with target t: the target is declared; the root store of the target *)
+  Lemma fk_target s f t b nl : In (CFkIndex f t b nl) (cons_of sch s) ->
+    exists d dr, In d sch /\ sd_name d = s /\ In (CFkIndex f t b nl) (sd_cons d) /\
+                 In dr sch /\ sd_name dr = root_of sch t /\ sd_parent dr = None /\ find_store sch (root_of sch t) = Some dr /\
+                 In b (backrefs_on sch (root_of sch t)).
+  Proof.
+    intros Hin. destruct (cons_of_in s _ Hin) as [d [A [B [C D]]]].
+    pose proof (decl_cons_wf d B _ D) as H. cbn in H.
+    apply andb_prop in H as [H _]. apply andb_prop in H as [H _]. apply andb_prop in H as [H _].
+    unfold declaredb in H. destruct (find_store sch t) as [dt|] eqn:Et; [|discriminate].
+    destruct (family_root t dt Et) as [dr [E1 [E2 [E3 [E4 _]]]]].
+    exists d, dr. refine (conj B (conj C (conj D (conj E1 (conj E2 (conj E3 (conj E4 _))))))). exact (in_backrefs_on d f t b nl B D).
   Qed.
 
   Theorem wf_notrace_b_sound : wfprops sch.
@@ -193,132 +252,124 @@ Section Sound.
       intros r0 d Hin. unfold children_of in Hin. apply filter_In in Hin as [Hin Hp].
       destruct (sd_parent d) as [p|] eqn:Ep; [|discriminate]. apply str_eqb_eq in Hp. subst p.
       rewrite (root_of_decl _ _ (find_store_nodup _ _ Hnames Hin)), Ep. reflexivity.
-    - (* cons_root *)
-      intros s k Hin. destruct k; try exact I;
-        (destruct (root_decl_of_cons s _ Hin I) as [d [A [_ [_ [B _]]]]]; exact (isroot_decl s d A B)).
+    - (* children_child *)
+      intros r0 d Hin. unfold children_of in Hin. apply filter_In in Hin as [Hin Hp].
+      destruct (sd_parent d) as [p|] eqn:Ep; [|discriminate].
+      unfold is_child. rewrite (find_store_nodup _ _ Hnames Hin), Ep. reflexivity.
+    - (* sown *)
+      intros s s' f Hr Hin Hin'.
+      destruct (setidx_root s f Hin) as [d [dr [A [B [C [D [Hdr [Hnr [Hpr [Hfd _]]]]]]]]]].
+      destruct (setidx_root s' f Hin') as [d' [_ [A' [B' [C' [D' [_ [_ [_ [Hfd' _]]]]]]]]]]. rewrite <- Hr in Hfd'.
+      destruct (root_facts dr Hdr Hpr) as [_ [Hnd _]]. rewrite Hnr in Hnd.
+      assert (d = d') as <-.
+      { eapply (NoDup_flat_map_inj _ _ d d' f Hnd Hfd Hfd'); unfold setidx_fields; apply in_flat_map; exists (CSetIdx f); (split; [assumption | left; reflexivity]). }
+      congruence.
     - (* uchild *)
       intros s d f nl Hc Hf Hin. unfold cons_of in Hin. rewrite Hf in Hin. destruct (find_store_in _ _ _ Hf) as [Hd _].
       unfold is_child in Hc. rewrite Hf in Hc. destruct (sd_parent d) as [p|] eqn:Ep; [|discriminate].
-      destruct (child_facts d p Hd Ep) as [_ [H _]]. exact (H _ Hin).
+      pose proof (decl_cons_wf d Hd _ Hin) as H. cbn in H. rewrite Ep in H. exact H.
+    - (* fchild *)
+      intros s d k f Hc Hf Hin Hk. unfold cons_of in Hin. rewrite Hf in Hin. destruct (find_store_in _ _ _ Hf) as [Hd _].
+      unfold is_child in Hc. rewrite Hf in Hc. destruct (sd_parent d) as [p|] eqn:Ep; [|discriminate].
+      pose proof (decl_cons_wf d Hd _ Hin) as H. destruct k; try contradiction; subst; cbn in H; rewrite Ep in H.
+      + apply andb_prop in H as [H _]. apply andb_prop in H as [_ H]. exact H.
+      + apply andb_prop in H as [H _]. apply andb_prop in H as [_ H]. exact H.
     - (* uown *)
       intros s s' f nl nl' Hr Hin Hin'.
       destruct (cons_of_in s _ Hin) as [d [A [B [C D]]]]. destruct (cons_of_in s' _ Hin') as [d' [A' [B' [C' D']]]].
-      set (r := root_of sch s) in *.
-      (* the declared root store of the family *)
-      assert (exists dr, In dr sch /\ sd_name dr = r /\ sd_parent dr = None) as [dr [Hdr [Hnr Hpr]]].
-      { unfold r. rewrite (root_of_decl _ _ A). destruct (sd_parent d) as [p|] eqn:Ep.
-        - destruct (child_facts d p B Ep) as [Hrp _]. destruct (is_rootb_decl p Hrp) as [dp [_ [X [Y Z]]]]. exists dp. repeat split; assumption.
-        - exists d. repeat split; assumption. }
-      assert (In d (family sch r)) as Hfd.
-      { apply family_in; [exact B|]. unfold r. rewrite (root_of_decl _ _ A). destruct (sd_parent d); [right; reflexivity | left; exact C]. }
-      assert (In d' (family sch r)) as Hfd'.
-      { apply family_in; [exact B'|]. rewrite Hr. rewrite (root_of_decl _ _ A'). destruct (sd_parent d'); [right; reflexivity | left; exact C']. }
+      destruct (family_root s d A) as [dr [Hdr [Hnr [Hpr [_ Hfd]]]]].
+      destruct (family_root s' d' A') as [_ [_ [_ [_ [_ Hfd']]]]]. rewrite <- Hr in Hfd'.
       destruct (root_facts dr Hdr Hpr) as [Hnd _]. rewrite Hnr in Hnd.
       assert (d = d') as <-.
       { eapply (NoDup_flat_map_inj _ _ d d' f Hnd Hfd Hfd').
         - unfold unique_fields. apply in_flat_map. exists (CUnique f nl). split; [exact D | left; reflexivity].
         - unfold unique_fields. apply in_flat_map. exists (CUnique f nl'). split; [exact D' | left; reflexivity]. }
       congruence.
-    - (* fk_t *)
-      intros s f t b nl Hin. destruct (root_decl_of_cons s _ Hin I) as [d [_ [Hd [_ [Hp Hk]]]]].
-      destruct (root_facts d Hd Hp) as [_ [_ [_ [H _]]]]. specialize (H _ Hk). cbn in H.
-      apply andb_prop in H as [H _]. apply andb_prop in H as [H _]. destruct (is_rootb_decl t H) as [dt [A [_ [_ B]]]]. exact (isroot_decl t dt A B).
-    - (* fc_t *)
-      intros s f t nl Hin. destruct (root_decl_of_cons s _ Hin I) as [d [_ [Hd [_ [Hp Hk]]]]].
-      destruct (root_facts d Hd Hp) as [_ [_ [_ [H _]]]]. specialize (H _ Hk). cbn in H.
-      apply andb_prop in H as [H _]. apply andb_prop in H as [H _]. destruct (is_rootb_decl t H) as [dt [A [_ [_ B]]]]. exact (isroot_decl t dt A B).
     - (* fk_guard *)
-      intros s f t b nl Hin. destruct (root_decl_of_cons s _ Hin I) as [d [_ [Hd [Hn [Hp Hk]]]]].
-      destruct (root_facts d Hd Hp) as [_ [_ [_ [H _]]]]. specialize (H _ Hk). cbn in H.
+      intros s f t b nl Hin. destruct (cons_of_in s _ Hin) as [d [_ [Hd [Hn Hk]]]].
+      pose proof (decl_cons_wf d Hd _ Hk) as H. cbn in H.
       apply andb_prop in H as [_ H]. apply existsb_exists in H as [k' [Hk' Hm]].
       destruct k'; try discriminate.
       + apply str_eqb_eq in Hm. subst. left. exact Hk'.
       + apply andb_prop in Hm as [E1 E2]. apply str_eqb_eq in E1, E2. subst. right. eexists. exact Hk'.
     - (* fc_guard *)
-      intros s f t nl Hin. destruct (root_decl_of_cons s _ Hin I) as [d [_ [Hd [Hn [Hp Hk]]]]].
-      destruct (root_facts d Hd Hp) as [_ [_ [_ [H _]]]]. specialize (H _ Hk). cbn in H.
+      intros s f t nl Hin. destruct (cons_of_in s _ Hin) as [d [_ [Hd [Hn Hk]]]].
+      pose proof (decl_cons_wf d Hd _ Hk) as H. cbn in H.
       apply andb_prop in H as [_ H]. apply existsb_exists in H as [k' [Hk' Hm]].
       destruct k'; try discriminate.
       apply andb_prop in Hm as [E1 E2]. apply str_eqb_eq in E1, E2. subst. eexists. exact Hk'.
     - (* buniq *)
-      intros s s' f f' t b nl nl' Hin Hin'.
-      destruct (root_decl_of_cons s _ Hin I) as [d [_ [Hd [Hn [Hp Hk]]]]].
-      destruct (root_decl_of_cons s' _ Hin' I) as [d' [_ [Hd' [Hn' [Hp' Hk']]]]].
-      destruct (root_facts d Hd Hp) as [_ [_ [_ [H _]]]]. specialize (H _ Hk). cbn in H.
-      apply andb_prop in H as [H _]. apply andb_prop in H as [H _]. destruct (is_rootb_decl t H) as [dt [_ [Hdt [Hnt Hpt]]]].
-      destruct (root_facts dt Hdt Hpt) as [_ [_ [Hnd _]]]. rewrite Hnt in Hnd.
+      intros s s' f f' t t' b nl nl' Hin Hin' Hrt.
+      destruct (fk_target s f t b nl Hin) as [d [dr [Hd [Hn [Hk [Hdr [Hnr [Hpr _]]]]]]]].
+      destruct (fk_target s' f' t' b nl' Hin') as [d' [_ [Hd' [Hn' [Hk' _]]]]].
+      destruct (root_facts dr Hdr Hpr) as [_ [_ [Hnd _]]]. rewrite Hnr in Hnd.
       pose proof (NoDup_app_remove_r _ _ (NoDup_app_remove_l _ _ Hnd)) as Hb. unfold backrefs_on in Hb.
-      set (g := fun k => match k with CFkIndex _ t' b0 _ => if str_eqb t' t then [b0] else [] | _ => [] end) in *.
-      assert (Hg : forall f0 nl0, In b (g (CFkIndex f0 t b nl0))) by (intros; cbn; rewrite str_eqb_refl; left; reflexivity).
+      set (r := root_of sch t) in *.
+      set (g := fun k => match k with CFkIndex _ t0 b0 _ => if str_eqb (root_of sch t0) r then [b0] else [] | _ => [] end) in *.
+      assert (Hg : In b (g (CFkIndex f t b nl))) by (cbn; fold r; rewrite str_eqb_refl; left; reflexivity).
+      assert (Hg' : In b (g (CFkIndex f' t' b nl'))) by (cbn; rewrite <- Hrt; fold r; rewrite str_eqb_refl; left; reflexivity).
       assert (d = d') as <-.
       { eapply (NoDup_flat_map_inj _ _ d d' b Hb Hd Hd'); apply in_flat_map.
-        - exists (CFkIndex f t b nl). split; [exact Hk | apply Hg].
-        - exists (CFkIndex f' t b nl'). split; [exact Hk' | apply Hg]. }
+        - exists (CFkIndex f t b nl). split; [exact Hk | exact Hg].
+        - exists (CFkIndex f' t' b nl'). split; [exact Hk' | exact Hg']. }
       split; [congruence|].
-      (* within one store: the inner flat_map is duplicate free as well *)
-      assert (NoDup (flat_map g (sd_cons d))) as Hinner.
-      { clear - Hb Hd. induction sch as [|d0 l IH]; [contradiction|]. cbn in Hb. destruct Hd as [->|Hd].
-        - exact (NoDup_app_remove_r _ _ Hb).
-        - apply IH; [exact Hd | exact (NoDup_app_remove_l _ _ Hb)]. }
-      pose proof (NoDup_flat_map_inj _ _ _ _ b Hinner Hk Hk' (Hg f nl) (Hg f' nl')) as E. inversion E. reflexivity.
-    - (* link_root *)
-      intros s lf os of_ Hin. destruct (links_of_in s _ Hin) as [d [A [B [C D]]]].
-      destruct (sd_parent d) as [p|] eqn:Ep.
-      + destruct (child_facts d p B Ep) as [_ [_ H]]. rewrite H in D. contradiction.
-      + split; [exact (isroot_decl s d A Ep)|]. destruct (root_facts d B Ep) as [_ [_ [_ [_ H]]]]. destruct (H _ _ _ D) as [H1 _].
-        destruct (is_rootb_decl os H1) as [dt [X [_ [_ Y]]]]. exact (isroot_decl os dt X Y).
+      pose proof (NoDup_flat_map_in _ _ d Hb Hd) as Hinner.
+      pose proof (NoDup_flat_map_inj _ _ _ _ b Hinner Hk Hk' Hg Hg') as E. inversion E. split; reflexivity.
     - (* link_sym *)
       intros s lf os of_ Hin. destruct (links_of_in s _ Hin) as [d [A [B [C D]]]].
-      destruct (sd_parent d) as [p|] eqn:Ep.
-      + destruct (child_facts d p B Ep) as [_ [_ H]]. rewrite H in D. contradiction.
-      + destruct (root_facts d B Ep) as [_ [_ [_ [_ H]]]]. destruct (H _ _ _ D) as [_ H2]. rewrite C in H2. exact H2.
+      pose proof (wf_link_sym d lf os of_ (decl_links_wf d B _ D)) as H. rewrite C in H. exact H.
     - (* link_uniq *)
-      intros s lf os of_ os' of' Hin Hin'. destruct (links_of_in s _ Hin) as [d [A [B [C D]]]].
-      unfold links_of in Hin'. rewrite A in Hin'.
-      destruct (sd_parent d) as [p|] eqn:Ep.
-      + destruct (child_facts d p B Ep) as [_ [_ H]]. rewrite H in D. contradiction.
-      + destruct (root_facts d B Ep) as [_ [_ [Hnd _]]].
-        pose proof (NoDup_app_remove_l _ _ (NoDup_app_remove_l _ _ Hnd)) as Hl. unfold link_locals in Hl.
-        pose proof (NoDup_map_inj _ _ _ _ Hl D Hin' eq_refl) as E. inversion E. split; reflexivity.
+      intros s s' lf os of_ os' of' Hin Hin' Hr.
+      destruct (link_in_family s lf os of_ Hin) as [d [dr [A [B [C [D [Hdr [Hnr [Hpr [_ [Hfd Hlf]]]]]]]]]]].
+      destruct (link_in_family s' lf os' of' Hin') as [d' [dr' [A' [B' [C' [D' [_ [_ [_ [_ [Hfd' _]]]]]]]]]]].
+      rewrite <- Hr in Hfd'.
+      destruct (root_facts dr Hdr Hpr) as [_ [_ [Hnd _]]]. rewrite Hnr in Hnd.
+      pose proof (NoDup_app_remove_l _ _ (NoDup_app_remove_l _ _ Hnd)) as Hl.
+      assert (d = d') as <-.
+      { eapply (NoDup_flat_map_inj _ _ d d' lf Hl Hfd Hfd'); eapply in_link_locals; eauto. }
+      split; [congruence|].
+      pose proof (NoDup_flat_map_in _ _ d Hl Hfd) as Hinner. unfold link_locals in Hinner.
+      pose proof (NoDup_map_inj _ _ _ _ Hinner D D' eq_refl) as E. inversion E. split; reflexivity.
     - (* disj_sb *)
-      intros r f0 s f b nl Hc Hk. destruct (root_decl_of_cons r _ Hc I) as [dr [_ [Hdr [Hnr [Hpr Hcr]]]]].
-      destruct (root_decl_of_cons s _ Hk I) as [d [_ [Hd [_ [_ Hkd]]]]].
+      intros s0 f0 s f t b nl Hc Hk Hrt.
+      destruct (setidx_root s0 f0 Hc) as [_ [dr [_ [_ [_ [_ [Hdr [Hnr [Hpr [_ Hset]]]]]]]]]].
+      destruct (fk_target s f t b nl Hk) as [_ [_ [_ [_ [_ [_ [_ [_ [_ Hb]]]]]]]]]. rewrite Hrt in Hb.
       destruct (root_facts dr Hdr Hpr) as [_ [_ [Hnd _]]]. rewrite Hnr in Hnd. intros ->.
-      apply (NoDup_app_disj _ _ b Hnd); [apply (in_setidx_sets dr b Hdr Hpr Hcr) | apply in_or_app; left; eapply in_backrefs_on; eauto].
+      apply (NoDup_app_disj _ _ b Hnd); [exact Hset | apply in_or_app; left; exact Hb].
     - (* disj_sl *)
-      intros r f0 lf os of_ Hc Hl. destruct (root_decl_of_cons r _ Hc I) as [dr [Ar [Hdr [Hnr [Hpr Hcr]]]]].
-      unfold links_of in Hl. rewrite Ar in Hl.
-      destruct (root_facts dr Hdr Hpr) as [_ [_ [Hnd _]]]. intros ->.
-      apply (NoDup_app_disj _ _ lf Hnd); [apply (in_setidx_sets dr lf Hdr Hpr Hcr) | apply in_or_app; right; eapply in_link_locals; eauto].
+      intros s0 f0 s lf os of_ Hc Hl Hrs.
+      destruct (setidx_root s0 f0 Hc) as [_ [dr [_ [_ [_ [_ [Hdr [Hnr [Hpr [_ Hset]]]]]]]]]].
+      destruct (link_in_family s lf os of_ Hl) as [_ [_ [_ [_ [_ [_ [_ [_ [_ [_ [_ Hlf]]]]]]]]]]]. rewrite Hrs in Hlf.
+      destruct (root_facts dr Hdr Hpr) as [_ [_ [Hnd _]]]. rewrite Hnr in Hnd. intros ->.
+      apply (NoDup_app_disj _ _ lf Hnd); [exact Hset | apply in_or_app; right; exact Hlf].
     - (* disj_bl *)
-      intros r s f b nl lf os of_ Hk Hl. destruct (links_of_in r _ Hl) as [dr [Ar [Hdr [Hnr Hlr]]]].
-      destruct (root_decl_of_cons s _ Hk I) as [d [_ [Hd [_ [_ Hkd]]]]].
-      destruct (sd_parent dr) as [p|] eqn:Ep.
-      + destruct (child_facts dr p Hdr Ep) as [_ [_ H]]. rewrite H in Hlr. contradiction.
-      + destruct (root_facts dr Hdr Ep) as [_ [_ [Hnd _]]]. rewrite Hnr in Hnd. intros ->.
-        apply (NoDup_app_disj _ _ lf (NoDup_app_remove_l _ _ Hnd)); [eapply in_backrefs_on; eauto | eapply in_link_locals; eauto].
+      intros s f t b nl s' lf os of_ Hk Hl Hrs.
+      destruct (link_in_family s' lf os of_ Hl) as [_ [dr [_ [_ [_ [_ [Hdr [Hnr [Hpr [_ [_ Hlf]]]]]]]]]]].
+      destruct (fk_target s f t b nl Hk) as [_ [_ [_ [_ [_ [_ [_ [_ [_ Hb]]]]]]]]]. rewrite <- Hrs in Hb.
+      destruct (root_facts dr Hdr Hpr) as [_ [_ [Hnd _]]]. rewrite Hnr in Hnd. intros ->.
+      apply (NoDup_app_disj _ _ lf (NoDup_app_remove_l _ _ Hnd)); [exact Hb | exact Hlf].
     - (* sets_b *)
-      intros r d s f b nl Hf Hk Hin. destruct (find_store_in _ _ _ Hf) as [Hd Hn].
-      destruct (root_decl_of_cons s _ Hk I) as [ds [_ [Hds [_ [Hps Hkd]]]]].
-      destruct (root_facts ds Hds Hps) as [_ [_ [_ [H _]]]]. specialize (H _ Hkd). cbn in H.
-      apply andb_prop in H as [H _]. apply andb_prop in H as [H _]. unfold is_rootb in H. rewrite Hf in H.
-      destruct (sd_parent d) eqn:Ep; [discriminate|].
-      destruct (root_facts d Hd Ep) as [_ [_ [Hnd _]]]. rewrite Hn in Hnd.
-      apply (NoDup_app_disj _ _ b Hnd Hin). apply in_or_app. left. eapply in_backrefs_on; eauto.
+      intros d s f t b nl Hf Hk Hin.
+      destruct (fk_target s f t b nl Hk) as [_ [dr [_ [_ [_ [Hdr [Hnr [Hpr [Hfr Hb]]]]]]]]].
+      rewrite Hfr in Hf. inversion Hf; subst d.
+      destruct (root_facts dr Hdr Hpr) as [_ [_ [Hnd _]]]. rewrite Hnr in Hnd.
+      apply (NoDup_app_disj _ _ b Hnd Hin). apply in_or_app. left. exact Hb.
     - (* sets_l *)
-      intros r d lf os of_ Hf Hl Hin. destruct (find_store_in _ _ _ Hf) as [Hd Hn].
-      destruct (sd_parent d) as [p|] eqn:Ep.
-      + destruct (child_facts d p Hd Ep) as [_ [_ H]]. rewrite H in Hl. contradiction.
-      + destruct (root_facts d Hd Ep) as [_ [_ [Hnd _]]].
-        apply (NoDup_app_disj _ _ lf Hnd Hin). apply in_or_app. right. eapply in_link_locals; eauto.
+      intros s d lf os of_ Hf Hl Hin.
+      destruct (link_in_family s lf os of_ Hl) as [_ [dr [_ [_ [_ [_ [Hdr [Hnr [Hpr [Hfr [_ Hlf]]]]]]]]]]].
+      rewrite Hfr in Hf. inversion Hf; subst d.
+      destruct (root_facts dr Hdr Hpr) as [_ [_ [Hnd _]]]. rewrite Hnr in Hnd.
+      apply (NoDup_app_disj _ _ lf Hnd Hin). apply in_or_app. right. exact Hlf.
     - (* fk_nosys *)
-      intros s f t b nl Hin. destruct (root_decl_of_cons s _ Hin I) as [d [_ [Hd [_ [Hp Hk]]]]].
-      destruct (root_facts d Hd Hp) as [_ [_ [_ [H _]]]]. specialize (H _ Hk). cbn in H.
-      apply andb_prop in H as [H _]. apply andb_prop in H as [_ H]. apply negb_true_iff in H. apply str_eqb_neq in H. exact H.
+      intros s f t b nl Hin. destruct (cons_of_in s _ Hin) as [d [_ [Hd [_ Hk]]]].
+      pose proof (decl_cons_wf d Hd _ Hk) as H. cbn in H.
+      apply andb_prop in H as [H _]. apply andb_prop in H as [H _]. apply andb_prop in H as [_ H].
+      apply negb_true_iff in H. apply str_eqb_neq in H. exact H.
     - (* fc_nosys *)
-      intros s f t nl Hin. destruct (root_decl_of_cons s _ Hin I) as [d [_ [Hd [_ [Hp Hk]]]]].
-      destruct (root_facts d Hd Hp) as [_ [_ [_ [H _]]]]. specialize (H _ Hk). cbn in H.
-      apply andb_prop in H as [H _]. apply andb_prop in H as [_ H]. apply negb_true_iff in H. apply str_eqb_neq in H. exact H.
+      intros s f t nl Hin. destruct (cons_of_in s _ Hin) as [d [_ [Hd [_ Hk]]]].
+      pose proof (decl_cons_wf d Hd _ Hk) as H. cbn in H.
+      apply andb_prop in H as [H _]. apply andb_prop in H as [H _]. apply andb_prop in H as [_ H].
+      apply negb_true_iff in H. apply str_eqb_neq in H. exact H.
     - (* child_parent *)
       intros s d p Hf Hp. destruct (find_store_in _ _ _ Hf) as [Hd _]. destruct (child_facts d p Hd Hp) as [H _].
       destruct (is_rootb_decl p H) as [dp [A _]]. congruence.
